@@ -795,19 +795,15 @@ impl StoryState {
             copy.current_flow.current_choices = self.current_flow.current_choices.clone();
         }
 
-        // The copy of the state has its own copy of the named flows dictionary,
-        // except with the current flow replaced with the copy above
-        // (Assuming we're in multi-flow mode at all. If we're not then
-        // the above copy is simply the default flow copy and we're done)
+        // The copy of the state has its own copy of the named flows dictionary.
+        // Unlike the reference engine, the current flow is never kept in that
+        // dictionary here (it is swapped out of it on a flow switch), so the
+        // dictionary is copied as is: inserting a clone of the current flow
+        // left a stale entry behind that overwrote the live flow on save.
         if self.named_flows.is_some() {
-            let mut nf = self.named_flows.clone();
-            nf.as_mut().unwrap().insert(
-                copy.current_flow.name.to_string(),
-                copy.current_flow.clone(),
-            );
             copy.alive_flow_names_dirty = true;
 
-            copy.named_flows = nf;
+            copy.named_flows = self.named_flows.clone();
         }
 
         if self.has_error() {
